@@ -191,22 +191,26 @@ macro "gen_leaf" : tactic => `(tactic| first
         and_self, and_true, true_and] at *) <;> omega)
   | (simp_all <;> omega))
 
-/-- `gen_tie [defs] [consts]`: state a `Bool` equation as an equivalence, unfold every generated function (simp set
-    `gen_def`) and the model definitions `defs` while turning `Bool` connectives into propositions, only then unfold
-    the generated constants (`gen_const`) and the model constants `consts` (so that the `Decidable` instances under a `decide` still match when it is removed), normalise, split every `if`,
-    close the leaves -/
-syntax "gen_tie" "[" Lean.Parser.Tactic.simpLemma,* "]" ("[" Lean.Parser.Tactic.simpLemma,* "]")? : tactic
+/-- one attempt: state a `Bool` equation as an equivalence, unfold every generated function (simp set `gen_def`) and
+    the model definitions `defs` while turning `Bool` connectives into propositions, only then unfold the generated
+    constants (`gen_const`) and the model constants `consts` (so that the `Decidable` instances under a `decide` still
+    match when it is removed), normalise, split every `if`, close the leaves -/
+syntax "gen_tie_core" "[" Lean.Parser.Tactic.simpLemma,* "]" "[" Lean.Parser.Tactic.simpLemma,* "]" : tactic
 macro_rules
-  | `(tactic| gen_tie []) => `(tactic| gen_tie [eq_self_iff_true])
-  | `(tactic| gen_tie [$ls,*] [$cs,*]) => `(tactic|
+  | `(tactic| gen_tie_core [$ls,*] [$cs,*]) => `(tactic|
       (try with_reducible refine Bool.eq_iff_iff.mpr ?_) <;>
       (simp only [gen_def, $ls,*, Bool.and_eq_true, Bool.or_eq_true, decide_eq_true_eq, Bool.ite_eq_true_distrib,
         Bool.ite_eq_false_distrib, Bool.not_eq_true', decide_eq_false_iff_not, Bool.false_eq_true,
         Bool.true_eq_false, eq_self_iff_true]) <;>
       (try simp only [gen_const, $cs,*]) <;> gen_norm <;> (try split_ifs) <;> gen_leaf)
-  | `(tactic| gen_tie [$ls,*]) => `(tactic|
-      (try with_reducible refine Bool.eq_iff_iff.mpr ?_) <;>
-      (simp only [gen_def, $ls,*, Bool.and_eq_true, Bool.or_eq_true, decide_eq_true_eq, Bool.ite_eq_true_distrib,
-        Bool.ite_eq_false_distrib, Bool.not_eq_true', decide_eq_false_iff_not, Bool.false_eq_true,
-        Bool.true_eq_false, eq_self_iff_true]) <;>
-      (try simp only [gen_const]) <;> gen_norm <;> (try split_ifs) <;> gen_leaf)
+
+/-- `gen_tie [defs] [consts]`: first with the `math/bits` contracts (`add64 sub64 mul64`) kept as opaque terms — enough
+    whenever the Go code calls them as the model does —, then with the contracts unfolded into arithmetic (a rewrite
+    that replaces `bits.Sub64(x, 1, 0)` by a comparison and two subtractions is still proved) -/
+syntax "gen_tie" "[" Lean.Parser.Tactic.simpLemma,* "]" ("[" Lean.Parser.Tactic.simpLemma,* "]")? : tactic
+macro_rules
+  | `(tactic| gen_tie []) => `(tactic| gen_tie [eq_self_iff_true])
+  | `(tactic| gen_tie [$ls,*]) => `(tactic| gen_tie [$ls,*] [eq_self_iff_true])
+  | `(tactic| gen_tie [$ls,*] [$cs,*]) => `(tactic| first
+      | gen_tie_core [$ls,*] [$cs,*]
+      | gen_tie_core [$ls,*, U128.add64, U128.sub64, U128.mul64] [$cs,*])
